@@ -54,6 +54,10 @@ CHECKS = {
             "metamorphic: a base patch vs a drawn composition of meaning-preserving layout transformations of it; results compared as canonical trees; CLI sample for descriptions",
             "Comment lines, blank lines, naming, description lines, metavariable renaming / regrouping / reordering, re-spacing, wrapping after commas, joining context lines, context line <-> identical -/+ pair: base and variant must both be rejected or give syntactically identical results.",
             "Metamorphic relation between two runs of gopatch; the base behaviour itself is judged by C01-C05.", "DESIGN.md §4 C13"),
+    "C14": ("exploration",
+            "generated file sets and argument orders (solo vs grouped CLI runs), stateful Apply histories on one parsed patch vs fresh Parse+Apply, and barrier-released concurrent Apply batches in a child process built with -race",
+            "Per-file results of a grouped run must equal the solo runs (bytes, stdout pieces, descriptions, error texts); every Apply on a shared patch.File must equal a fresh Parse + single Apply; concurrent batches must give the same results and the race detector must stay silent.",
+            "The harness does not own the Go scheduler: interleavings are sampled by stress under the race detector, not enumerated. Differential against gopatch itself.", "DESIGN.md §4 C14"),
     "C15": ("exploration",
             "complete table of tree shapes x argument spellings plus generated directory trees and argument lists, against a reference walk; a non-idempotent patch makes double processing visible",
             "A fixed 39-entry tree crossed with every target, spelling and working directory (about 1470 cases) plus generated trees/argument lists through the CLI; the set of changed files, the number of applications per file and the -v listing must equal the reference walk written from the property text.",
